@@ -10,10 +10,13 @@
 //   e                          error return
 //   start:<first saved slot|->
 //   db:<slot>=<hdr>.<signer>+<hdr>.<signer>;<slot>=...   (slots ascending) or db:-
+//   raw:<slot>=<FNV-1a 64 of the stored SCALE bytes>;...  (same order) or raw:-   (third round: the
+//       driver recomputes the bytes with the Gallina encoder Codec.stored_value)
 package state
 
 import (
 	"bytes"
+	"hash/fnv"
 	"encoding/binary"
 	"fmt"
 	"sort"
@@ -147,7 +150,7 @@ func c27Run(in string) string {
 		slot uint64
 		s    string
 	}
-	var ents []ent
+	var ents, raws []ent
 	it, err := ss.db.NewPrefixIterator(slotHeaderMapKey)
 	if err != nil {
 		return "err:iter"
@@ -176,18 +179,30 @@ func c27Run(in string) string {
 				parts = append(parts, vu.X(h)+"."+vu.X(s))
 			}
 		}
+		hh := fnv.New64a()
+		hh.Write(it.Value())
+		raws = append(raws, ent{slot, vu.X(slot) + "=" + vu.X(hh.Sum64())})
 		ents = append(ents, ent{slot, vu.X(slot) + "=" + strings.Join(parts, "+")})
 	}
 	it.Release()
 	sort.Slice(ents, func(i, j int) bool { return ents[i].slot < ents[j].slot })
+	sort.Slice(raws, func(i, j int) bool { return raws[i].slot < raws[j].slot })
+	rawTok := "raw:-"
+	if len(raws) > 0 {
+		rs := make([]string, len(raws))
+		for i, e := range raws {
+			rs[i] = e.s
+		}
+		rawTok = "raw:" + strings.Join(rs, ";")
+	}
 	if len(ents) == 0 {
-		out = append(out, "db:-")
+		out = append(out, "db:-", rawTok)
 	} else {
 		ss := make([]string, len(ents))
 		for i, e := range ents {
 			ss[i] = e.s
 		}
-		out = append(out, "db:"+strings.Join(ss, ";"))
+		out = append(out, "db:"+strings.Join(ss, ";"), rawTok)
 	}
 	return strings.Join(out, " ")
 }
